@@ -153,6 +153,12 @@ func runC09(c *ShardCtx) {
 			}
 			one(g, [][]string{nil, {"B"}})
 		}
+		for _, ga := range ruleGraphFamily(c.Thorough()) {
+			if c.Expired("rule graph family") {
+				return
+			}
+			one(ga.g, ga.alts)
+		}
 		inputs = saved
 	}
 	for size := 1; size <= n+1; size++ {
@@ -233,6 +239,49 @@ func twoSiteFamily() []grammarAlts {
 						}
 						out = append(out, grammarAlts{g, alts})
 					}
+				}
+			}
+		}
+	}
+	return out
+}
+
+// ruleGraphFamily: EVERY reference graph over the rules S, A, B, D in which a
+// rule is a leaf ('a', [ab]), a chain "c" X, or a (non-left) recursive choice
+// "a" X / "b": rules that are dead (unreachable from the first rule and from
+// the alternate entrypoints) but refer to live ones, shared recursive rules,
+// leaf rules inlined into rules that are removed, every set of alternate
+// entrypoints among {A}, {D}, {A,B}.
+func ruleGraphFamily(thorough bool) []grammarAlts {
+	names := []string{"S", "A", "B", "D"}
+	var bodies []func() *peg.Expr
+	bodies = append(bodies, func() *peg.Expr { return peg.Lit("a") }, func() *peg.Expr { return peg.Cls(false, false, "a", "b") })
+	for _, x := range names {
+		x := x
+		bodies = append(bodies, func() *peg.Expr { return peg.Choice(peg.Seq(peg.Lit("a"), peg.Ref(x)), peg.Lit("b")) })
+		if x != "S" {
+			bodies = append(bodies, func() *peg.Expr { return peg.Seq(peg.Lit("c"), peg.Ref(x)) })
+		}
+	}
+	// the first rule always refers to something: "S <- X Y?" shapes
+	var firsts []func() *peg.Expr
+	for _, x := range names[1:] {
+		x := x
+		firsts = append(firsts, func() *peg.Expr { return peg.Seq(peg.Ref(x), peg.Opt(peg.Lit("c"))) })
+		firsts = append(firsts, func() *peg.Expr { return peg.Choice(peg.Seq(peg.Lit("a"), peg.Ref(x), peg.Ref("S")), peg.Ref(x)) })
+	}
+	var out []grammarAlts
+	n := 0
+	for _, f := range firsts {
+		for ai, a := range bodies {
+			for bi, b := range bodies {
+				for di, d := range bodies {
+					n++
+					if !thorough && n%3 != 0 && !(ai >= 2 && bi >= 2 && di < 2) {
+						continue // quick: a systematic third, plus every graph with two non-leaf rules and a leaf
+					}
+					g := &peg.Grammar{Rules: []*peg.Rule{{Name: "S", Expr: f()}, {Name: "A", Expr: a()}, {Name: "B", Expr: b()}, {Name: "D", Expr: d()}}}
+					out = append(out, grammarAlts{g, [][]string{nil, {"A"}, {"D"}, {"A", "B"}}})
 				}
 			}
 		}
